@@ -257,7 +257,7 @@ static errcode_t stub_uf_set_blksize(io_channel ch, int blksize)
 #define VF_BUF_IS_SB(buf, count) ((count) == -SUPERBLOCK_SIZE)
 #else
 #define VF_BUF_IS_HDR(buf, count) ((const void *) (buf) == (const void *) &vf_data.hdr)
-#define VF_BUF_IS_SB(buf, count) (__CPROVER_OBJECT_SIZE(buf) == SUPERBLOCK_SIZE)
+#define VF_BUF_IS_SB(buf, count) (__CPROVER_OBJECT_SIZE(buf) == SUPERBLOCK_SIZE && (count) != 1)
 #endif
 
 static errcode_t stub_uf_write_blk64(io_channel ch, unsigned long long block, int count, const void *buf)
